@@ -122,6 +122,8 @@ def check(args):
         reasons.append('distinct_nontrivial=%d<2' % len(merged['sigs']))
     if timed_out:
         reasons.append('workers_timed_out=%s' % timed_out)
+    if hasattr(module, 'inconclusive'):
+        reasons += module.inconclusive(merged, tier)
     extra = {}
     if hasattr(module, 'evidence_extra'):
         extra = module.evidence_extra(merged)
